@@ -50,6 +50,8 @@ TraceNext ==
   /\ ti' = ti + 1
   /\ LET ev == T[ti] IN
      IF ev.e = "Reset" THEN ResetA
+     ELSE IF ev.e = "Big" THEN        \* very long lists: members found, the absent node not; removals; "append if absent" lands at the end
+          /\ ev.found = <<1, 1, 1, 0, 0, 0>> /\ ev.removed = <<1, 0, 1>> /\ ev.len = ev.n /\ ev.ok = 1 /\ UNCHANGED vars
      ELSE Do(ev) /\ ProjOK(ev.st)
 
 TraceSpec == TraceInit /\ [][TraceNext]_tvars
